@@ -27,7 +27,7 @@ FRAME_KINDS = ["data", "connect", "connect_v2", "subscribe", "unsubscribe", "pau
 
 STAGES = ["fresh", "connected", "subscribed", "early_sub"]
 
-NAMES = [b"", b"plain", b"\xff" * 32, b"\xff" * 31, b"\x80abc", b"caf\xc3\xa9", b"x" * 32, b"\x00" * 32,
+NAMES = [b"rig\\[/]", b"a\\[/b]", b"[bold]x[/bold]", b"[/]", b"[link=x]y", b"\\", b"[red", b"{0}%s%d", b"", b"plain", b"\xff" * 32, b"\xff" * 31, b"\x80abc", b"caf\xc3\xa9", b"x" * 32, b"\x00" * 32,
          b"message_manager", b"a\x00\xff\xfe", bytes(range(1, 33))]
 
 
@@ -83,8 +83,12 @@ class HostileRun:
         timing = ch.pick("cfg.timing_off", 4) != 3
         lvl = ch.weighted("cfg.loglevel", [(3, logging.ERROR), (2, logging.INFO), (2, logging.DEBUG)])
         self.res.config = dict(timecode=timecode, timing=timing, loglevel=lvl, forced=self.forced)
+        console = ch.flag("cfg.console", 1, 5)       # the rich console handler renders every record
+        self.res.config["console"] = console
         self.w = World(ch, timecode=timecode, log_level=lvl, send_msg_timing=timing,
-                       p_notwritable=(0, 1))
+                       p_notwritable=(0, 1), console=console)
+        if console:
+            self.res.probes["console_handler_on"] += 1
         self.w.patch()
         self.w.start_manager()
         w = self.w
@@ -123,7 +127,8 @@ class HostileRun:
         elif stage != "fresh":
             rid = ch.weighted("host.rid", [(3, 0), (2, 20 + ch.pick("host.ridn", 10))])
             a.handshake(ch.choose("host.proto", ["v2v1", "v1", "v2"]), req_id=rid,
-                        logger=ch.flag("host.logger", 1, 6), allow_multiple=True)
+                        logger=ch.flag("host.logger", 1, 6), allow_multiple=True,
+                        name=ch.choose("host.hname", NAMES) if ch.flag("host.named", 1, 3) else b"")
             if stage == "subscribed":
                 t = ch.choose("host.subt", [1000, 4000, C.ALL_MESSAGE_TYPES, C.MT_CLIENT_CLOSED,
                                             C.MT_FAILED_MESSAGE, C.MT_RTMA_LOG_ERROR, C.MT_RTMA_LOG_DEBUG,
